@@ -22,7 +22,7 @@ ANCHORS = ["decaylanguage.decay.decay:DecayChain.flatten"]
 WORKERS = {"quick": 4, "thorough": 16}
 WATCHDOG = {"quick": 600, "thorough": 3000}
 WTESTS = {"groups": ['flatten'], "tests": ['tests/decay']}
-REQUIRED = {"sub-decay-changed-through-the-decays-mapping-after-the-first-question:mode-exchanged": 20, "sub-decay-changed-through-the-decays-mapping-after-the-first-question:final-state-edited-in-place": 20, "cascade-deeper-than-10-levels:child-first": 3, "sub-decay-without-daughters": 10, 
+REQUIRED = {"flatten-abandoned-at-a-random-line:interrupted": 100, "one-body-decay-at-the-top": 10, "sub-decay-changed-through-the-decays-mapping-after-the-first-question:mode-exchanged": 20, "sub-decay-changed-through-the-decays-mapping-after-the-first-question:final-state-edited-in-place": 20, "cascade-deeper-than-10-levels:child-first": 3, "sub-decay-without-daughters": 10, 
     "subdecays>=4": 20, "mult3-of-decaying": 20, "reoccur-two-depths": 20, "mother-last": 20, "stable-nonempty": 20,
     "stable-as-set": 5, "stable-as-tuple": 5, "visible_bf": 20, "same-shape-other-branching-fractions": 20, "returned-chain-edited-then-original-compared": 50, "flatten-without-stable-set-after-one-with": 50, "all-sub-decays-with-bf-exactly-1": 20, "a-sub-decay-with-bf-exactly-0": 20,
     "C12.flatten.leaves_and_product": 500, "C12.flatten.original_unchanged": 500,
